@@ -106,7 +106,27 @@ EXTRA3 = {
 }
 for _k, _v in EXTRA2.items():
     EXTRA[_k] = EXTRA.get(_k, '') + _v
+EXTRA4 = {
+    'C02': ' the handle\'s root is resolved by the file system.',
+    'C03': ' shard lists are only appended to.',
+    'C04': ' shard file names derive from uuid4().',
+    'C08': ' the parent merges the infos returned by the workers.',
+    'C09': ' the in-memory description has one writer (the constructor) and nothing customises pickling.',
+    'C10': ' after a close the progress registry points at the new shard before the write is attempted.',
+    'C11': ' loading a list does not rewrite metadata values; the walk yields every shard.',
+    'C13': ' the queue is stored on the pool before any worker starts; the sentinel is recognised by type.',
+    'C14': ' hand-over buffers created in the iteration modules have a positive capacity; a failing worker reports to the consumer.',
+    'C15': ' every example is a dictionary created for it; the native thread count has lower bound >= 1.',
+    'C16': ' a rewritten list is re-hashed into its parent on every exit of the filler.',
+    'C17': ' metadata files are parsed only through the validating models.',
+    'C18': ' after a close the progress registry points at the new shard before the write is attempted.',
+    'C19': ' every stream gets its own pool; the batch size is an integer >= 1.',
+}
+for _k in [f"C{i:02d}" for i in range(1, 21)]:
+    EXTRA4[_k] = EXTRA4.get(_k, '') + ' nothing read from files or the environment is memoised (decorators and hand-made caches).'
 for _k, _v in EXTRA3.items():
+    EXTRA[_k] = EXTRA.get(_k, '') + _v
+for _k, _v in EXTRA4.items():
     EXTRA[_k] = EXTRA.get(_k, '') + _v
 for _pid, _t in EXTRA.items():
     _a, _b, _c = P[_pid]
